@@ -46,6 +46,7 @@ def latestSummarizable : Int → List (Nat × Delta) → Option Nat
 structure SummaryRange where
   lastInRange : Nat
   lastSummarizable : Option Nat
+deriving DecidableEq, Repr
 
 def summaryRange (latest : Int) (ds : List Delta) : Option SummaryRange :=
   match latestInRange latest ds 0 none with
@@ -111,11 +112,25 @@ def insertTx (x : Tx) : List Tx → List Tx
   | [] => [x]
   | y :: ys => if txLe x y then x :: y :: ys else y :: insertTx x ys
 
+def insertPair (x : Aff × Nat) : List (Aff × Nat) → List (Aff × Nat)
+  | [] => [x]
+  | y :: ys => if x.1.key ≤ y.1.key then x :: y :: ys else y :: insertPair x ys
+
 /-- last index (≤ bound) of each affiliate, affiliates sorted by id -/
 def lastIdxPerAff (ds : List Delta) (bound : Nat) : List (Aff × Nat) :=
   let pairs := (ds.take (bound + 1)).zipIdx.foldl (fun acc (d, i) =>
     (d.tx.aff, i) :: acc.filter (fun p => p.1 != d.tx.aff)) ([] : List (Aff × Nat))
-  (pairs.toArray.qsort (fun a b => a.1.key < b.1.key)).toList
+  pairs.foldr insertPair []
+
+/-- The row an unsummarisable delta is carried over as: its transaction, with the superficial loss
+    that was computed for it written into the `superficial loss` cell. -/
+def carryTx (d : Delta) : Tx :=
+  match d.sfl, d.tx.act with
+  | some s, .sell sh px comm rate crate spec =>
+    -- an amount the user forced stays forced (fix cd15d29)
+    let force := match spec with | some (_, f) => f | none => false
+    { d.tx with act := .sell sh px comm rate crate (some (s.loss, force)) }
+  | _, _ => d.tx
 
 /-- `make_summary_txs` for one security. -/
 def makeSummaryTxs (yearOf : Int → Int) (jan1 : Int → Int) (latest : Int) (annual : Bool) (ds : List Delta) : List Tx :=
@@ -134,12 +149,6 @@ def makeSummaryTxs (yearOf : Int → Int) (jan1 : Int → Int) (latest : Int) (a
     let sorted := sorted.map (fun t => { t with idx := 0 })
     let firstUnsum := match r.lastSummarizable with | some ls => ls + 1 | none => 0
     let unsum := (ds.take (r.lastInRange + 1)).drop firstUnsum
-    sorted ++ unsum.map (fun d =>
-      match d.sfl, d.tx.act with
-      | some s, .sell sh px comm rate crate spec =>
-        -- an amount the user forced stays forced (fix cd15d29)
-        let force := match spec with | some (_, f) => f | none => false
-        { d.tx with act := .sell sh px comm rate crate (some (s.loss, force)) }
-      | _, _ => d.tx)
+    sorted ++ unsum.map carryTx
 
 end Acb
